@@ -919,6 +919,20 @@ func gen(g *hx.Gen) {
 			}
 		}
 	}
+	// whole regular graphs beyond 40 vertices (the root cell IS the graph: every size switch of the
+	// code that sorts, merges or scans a cell — ints.Sort's 12 / 40 / depth limits, block merges of
+	// 20 — is met with one cell of exactly this size, re-sorted by deage after every undone
+	// individualisation): random d-regular graphs at 41, 42 and a few sizes up to 64
+	for _, n := range []int{41, 42, 44, 48, 56, 61, 64} {
+		for rep := 0; rep < g.Pick(1, 4); rep++ {
+			d := 3 + g.Rng.Intn(2)
+			if n*d%2 == 1 {
+				d = 4
+			}
+			gr := cx.RandomRegularSwitch(g.Rng, n, d).Relabel(g.Rng.Perm(n))
+			emitB("regular-large", gr, fewTok(), 60)
+		}
+	}
 	// one big cell: a regular part of s vertices (every s in 18..45: random regular or circulant)
 	// joined to one to three distinguishing vertices with random neighbourhoods in the part; as
 	// it is, complemented, and together with a disjoint copy of the part
